@@ -122,7 +122,7 @@ func luaCall(fn string, args []string) string {
 }
 
 func checkC18Seq(job *Job, res *Result) {
-	res.Rule = "SEQ: every catalogue command x shape, wrapped in tile38.call / tile38.pcall; shapes that modify the internal state through EVAL (self-calibrating) must be refused through EVALRO and EVALROSHA with an error and leave the state unchanged; distinct = distinct (command, modifies?, refused?) classes"
+	res.Rule = "SEQ: every catalogue command x shape, wrapped in tile38.call / tile38.pcall; shapes that modify the internal state through EVAL (self-calibrating) must be reproduced by a restart after EVAL / EVALNA / EVALSHA, and must be refused through EVALRO and EVALROSHA with an error and leave the state unchanged; distinct = distinct (command, modifies?, refused?) classes"
 	repo, _ := job.Params["repo"].(string)
 	names, _ := catalogueNames(repo)
 	cat := catalogue()
@@ -156,6 +156,40 @@ func checkC18Seq(job *Job, res *Result) {
 				if !modifies {
 					res.Evaluations++
 					continue
+				}
+				// 1b. every write a script makes is logged: a restart reproduces the state
+				for _, variant := range []string{"EVAL", "EVALNA", "EVALSHA"} {
+					x := runExec(job, freezeAllBut(), func(x *Exec) {
+						in := x.Start("L", x.dir+"/L", 9001, nil)
+						c := x.Dial(in.Addr)
+						sha := catSetup(c)
+						script := luaCall(fn, catSubst(shape, sha))
+						if variant == "EVALSHA" {
+							c.Do("EVALSHA", c.Do("SCRIPT", "LOAD", script).S, "0")
+						} else {
+							c.Do(variant, script, "0")
+						}
+						live := fullDump(c)
+						c.Close()
+						in.Stop()
+						in2, err := x.TryStart("L2", x.dir+"/L", 9002, nil)
+						if err != nil {
+							res.Violate(fmt.Sprintf("C18/restart-fails-after-script:%s", strings.ToLower(name)), fmt.Sprintf("after %s with tile38.%s(%v) the server does not restart: %v", variant, fn, shape, err), map[string]any{"cmd": shape, "variant": variant, "fn": fn})
+							return
+						}
+						c2 := x.Dial(in2.Addr)
+						if again := fullDump(c2); again != live {
+							res.Violate(fmt.Sprintf("C18/script-write-not-reproduced-by-restart:%s:%s", strings.ToLower(name), strings.ToLower(variant)),
+								fmt.Sprintf("%s with tile38.%s(%v): state before the restart %s, after %s", variant, fn, shape, vclip(live, 300), vclip(again, 300)), map[string]any{"cmd": shape, "variant": variant, "fn": fn})
+						}
+					})
+					if x.Err != "" {
+						res.EngineError = x.Err
+						return
+					}
+					res.Evaluations++
+					res.Transitions++
+					res.Validated++
 				}
 				// 2. the same through the read-only variants
 				for _, variant := range []string{"EVALRO", "EVALROSHA"} {
